@@ -83,7 +83,7 @@ theorem progress {s : Stream} (hr : Reach s) (hn : s.snd.somePick ≠ none) :
         simp only [if_true]
         refine ⟨trivial, d2, ?_⟩
         split at d3
-        · rename_i hst; simp only [hst, if_true]; rw [d3]; simp
+        · rename_i hst; simp only [hst, if_true]
         · rename_i hst; simp only [hst, if_false]; exact d3
       · exact absurd rfl hn
 
